@@ -232,6 +232,37 @@ def crc_consts(src):
     return num(m.group(1)), int(m.group(2)), num(m.group(3)), int(m.group(4))
 
 
+def slave_consts(src):
+    """(broadcast, min_device, max_device, tcp_device) and the shape of the three classification predicates"""
+    vals = []
+    for fn in ("broadcast", "min_device", "max_device", "tcp_device"):
+        body = block_after(src, r"pub\s+const\s+fn\s+%s\s*\(\s*\)\s*->\s*Self\s*\{" % fn)
+        m = re.fullmatch(r"\s*Slave\(\s*([0-9a-fA-FxX_]+)\s*\)\s*", body)
+        if not m:
+            raise Skip("Slave::%s is not a literal" % fn)
+        vals.append(num(m.group(1)))
+    shapes = {"is_broadcast": r"\s*self\s*==\s*Self::broadcast\(\)\s*",
+              "is_single_device": r"\s*self\s*>=\s*Self::min_device\(\)\s*&&\s*self\s*<=\s*Self::max_device\(\)\s*",
+              "is_reserved": r"\s*self\s*>\s*Self::max_device\(\)\s*"}
+    for fn, shape in shapes.items():
+        body = block_after(src, r"pub\s+fn\s+%s\s*\(\s*self\s*\)\s*->\s*bool\s*\{" % fn)
+        if not re.fullmatch(shape, body):
+            raise Skip("Slave::%s changed shape" % fn)
+    return tuple(vals)
+
+
+def coil_consts(src):
+    b2c = block_after(src, r"fn\s+bool_to_coil\s*\(\s*state\s*:\s*bool\s*\)\s*->\s*u16\s*\{")
+    m1 = re.fullmatch(r"\s*if state \{\s*(0x[0-9A-Fa-f]+)\s*\} else \{\s*(0x[0-9A-Fa-f]+)\s*\}\s*", b2c)
+    c2b = block_after(src, r"fn\s+coil_to_bool\s*\(\s*coil\s*:\s*u16\s*\)\s*->\s*io::Result<bool>\s*\{")
+    m2 = re.fullmatch(r"\s*match coil \{\s*(0x[0-9A-Fa-f]+) => Ok\(true\),\s*(0x[0-9A-Fa-f]+) => Ok\(false\),\s*_ => Err\(Error::new\(ErrorKind::InvalidData,.*\)\),\s*\}\s*", c2b, flags=re.S)
+    ps = block_after(src, r"fn\s+packed_coils_size\s*\(\s*coils\s*:\s*&\[Coil\]\s*\)\s*->\s*usize\s*\{")
+    m3 = re.fullmatch(r"\s*\(coils\.len\(\) \+ (\d+)\) / (\d+)\s*", ps)
+    if not (m1 and m2 and m3):
+        raise Skip("coil conversion helpers changed shape")
+    return (num(m1.group(1)), num(m1.group(2)), num(m2.group(1)), num(m2.group(2)), int(m3.group(1)), int(m3.group(2)))
+
+
 # ------------------------------------------------------------------ emit
 def s2l(name):
     return 's2l "%s"' % name
@@ -299,6 +330,12 @@ def main():
     piece("gen_HEADER_LEN", "N", "HEADER_LEN", lambda: const(tcp, "HEADER_LEN"), str)
     piece("gen_PROTOCOL_ID", "N", "0", lambda: const(tcp, "PROTOCOL_ID"), str)
     piece("gen_CRC", "N * N * N * N", "(65535, 8, 40961, 8)", lambda: crc_consts(rtu), lambda t: "(%d, %d, %d, %d)" % t)
+    try:
+        slave = strip_comments(read("src/slave.rs"))
+    except Skip:
+        slave = ""
+    piece("gen_SLAVE", "N * N * N * N", "(0, 1, 247, 255)", lambda: slave_consts(slave), lambda t: "(%d, %d, %d, %d)" % t)
+    piece("gen_COIL", "N * N * N * N * N * N", "(65280, 0, 65280, 0, 7, 8)", lambda: coil_consts(codec), lambda t: "(%d, %d, %d, %d, %d, %d)" % t)
     os.makedirs(os.path.dirname(OUT), exist_ok=True)
     new = "\n".join(out) + "\n"
     old = open(OUT).read() if os.path.exists(OUT) else None
